@@ -156,6 +156,11 @@ type Graph struct {
 	rpo   []int
 
 	factMemo map[int][]Fact
+	twinIdx  map[[3]any][]ssa.Value
+	qcache   map[int][]Fact
+	inProg   map[int]bool
+	qdepth   int
+	edgeMemo map[[2]int][]Fact
 	phiBr    int
 }
 
@@ -357,14 +362,13 @@ type Fact struct {
 // those edges holds as well ("x, err := h(); if err != nil {...}" after h was
 // merged into the caller, or a flag computed on several branches).
 func (g *Graph) FactsAt(b int) []Fact {
-	if g.factMemo == nil {
-		g.factMemo = map[int][]Fact{}
+	top := g.qdepth == 0
+	g.qdepth++
+	f, _ := g.factsAt(b, nil)
+	g.qdepth--
+	if top {
+		g.qcache = nil
 	}
-	if f, ok := g.factMemo[b]; ok {
-		return append([]Fact(nil), f...)
-	}
-	f := g.factsAt(b, map[int]bool{})
-	g.factMemo[b] = f
 	return append([]Fact(nil), f...)
 }
 
@@ -408,7 +412,32 @@ func (g *Graph) EdgeFact(p, s int) (Fact, bool) { return g.edgeFact(p, s) }
 func (g *Graph) EdgeFacts(p, s int) []Fact {
 	out := g.FactsAt(p)
 	if f, ok := g.edgeFact(p, s); ok {
-		out = g.unfold(append(out, f), map[int]bool{p: true})
+		key := [2]int{p, s}
+		if m, okM := g.edgeMemo[key]; okM {
+			return append([]Fact(nil), m...)
+		}
+		top := g.qdepth == 0
+		g.qdepth++
+		if g.inProg == nil {
+			g.inProg = map[int]bool{}
+		}
+		was := g.inProg[p]
+		g.inProg[p] = true
+		var tainted bool
+		out, tainted = g.unfold(append(out, f), nil, p)
+		if !was {
+			delete(g.inProg, p)
+		}
+		g.qdepth--
+		if top {
+			g.qcache = nil
+		}
+		if !tainted {
+			if g.edgeMemo == nil {
+				g.edgeMemo = map[[2]int][]Fact{}
+			}
+			g.edgeMemo[key] = append([]Fact(nil), out...)
+		}
 	}
 	return out
 }
@@ -493,23 +522,138 @@ func phiTest(f Fact) (*ssa.Phi, valClass, bool) {
 	return nil, clsUnknown, false
 }
 
-func (g *Graph) factsAt(b int, busy map[int]bool) []Fact {
-	out := g.baseFacts(b)
-	if busy[b] {
-		return out
+// factsAt computes the facts at b. Results that did not run into a block whose facts are
+// still being computed (a cycle) are kept for good; the others - sound, but possibly short of
+// what a fresh computation finds - are kept only for the duration of the outermost query.
+func (g *Graph) factsAt(b int, _ map[int]bool) ([]Fact, bool) {
+	if g.factMemo == nil {
+		g.factMemo = map[int][]Fact{}
 	}
-	busy[b] = true
-	defer delete(busy, b)
-	return g.unfold(out, busy)
+	if f, ok := g.factMemo[b]; ok {
+		return f, false
+	}
+	if f, ok := g.qcache[b]; ok {
+		return f, true
+	}
+	if g.inProg == nil {
+		g.inProg = map[int]bool{}
+	}
+	if g.inProg[b] {
+		return g.baseFacts(b), true
+	}
+	g.inProg[b] = true
+	out, tainted := g.unfold(g.baseFacts(b), nil, b)
+	delete(g.inProg, b)
+	if !tainted {
+		g.factMemo[b] = out
+	} else {
+		if g.qcache == nil {
+			g.qcache = map[int][]Fact{}
+		}
+		g.qcache[b] = out
+	}
+	return out, tainted
 }
 
 // unfold adds to a list of facts everything that follows from its facts about phis.
-func (g *Graph) unfold(out []Fact, busy map[int]bool) []Fact {
+func (g *Graph) unfold(out []Fact, _ map[int]bool, at int) ([]Fact, bool) {
+	tainted := false
 	have := map[[2]any]bool{}
 	for _, f := range out {
 		have[[2]any{f.Cond, f.Val}] = true
 	}
+	// The same comparison of the same values written twice ("case c == q && !quoted: ... case c == q:")
+	// is two instructions in SSA form but one truth value: what is known of one is known of the other.
+	addTwins := func(from int) {
+		for i := from; i < len(out); i++ {
+			if out[i].NilOf != nil {
+				continue
+			}
+			for _, tw := range g.twins(out[i].Cond) {
+				if !have[[2]any{tw, out[i].Val}] {
+					have[[2]any{tw, out[i].Val}] = true
+					out = append(out, Fact{Cond: tw, Val: out[i].Val, If: out[i].If})
+				}
+			}
+		}
+	}
+	addTwins(0)
+	// Facts narrow merges too: a block with several predecessors on the dominator chain of `at`
+	// was last entered over an edge whose own facts do not contradict what is known now about values
+	// computed before the merge; what all such edges agree on holds as well.
+	{
+		n0 := len(out)
+		for c := at; c > 0 && g.Reach[c]; c = g.idom[c] {
+			if len(g.Preds[c]) < 2 {
+				continue
+			}
+			var common []Fact
+			first, pruned := true, false
+			for _, pred := range g.Preds[c] {
+				if !g.Reach[pred] || g.Cut[pred] >= 0 {
+					continue
+				}
+				pf0, t := g.factsAt(pred, nil)
+				tainted = tainted || t
+				pf := append([]Fact(nil), pf0...)
+				if ef, ok := g.edgeFact(pred, c); ok {
+					pf = append(pf, ef)
+				}
+				if g.contradicts(pf, have, c) {
+					pruned = true
+					continue
+				}
+				if first {
+					common, first = pf, false
+					continue
+				}
+				var keep []Fact
+				for _, a := range common {
+					for _, q := range pf {
+						if a.Cond == q.Cond && a.Val == q.Val && a.NilOf == q.NilOf && a.IsNil == q.IsNil {
+							keep = append(keep, a)
+							break
+						}
+					}
+				}
+				common = keep
+			}
+			if !pruned {
+				continue
+			}
+			for _, f := range common {
+				if f.NilOf != nil {
+					out = append(out, f)
+					continue
+				}
+				if !have[[2]any{f.Cond, f.Val}] {
+					have[[2]any{f.Cond, f.Val}] = true
+					out = append(out, f)
+				}
+			}
+		}
+		addTwins(n0)
+	}
 	for i := 0; i < len(out) && i < 64; i++ {
+		// cmp.Or(a, b, ...) == nil means every operand is nil
+		{
+			var y ssa.Value
+			if out[i].NilOf != nil {
+				if out[i].IsNil {
+					y = out[i].NilOf
+				}
+			} else if x, eq, isNC := NilCheck(out[i].Cond); isNC && eq == out[i].Val {
+				y = x
+			}
+			if c, isC := y.(*ssa.Call); isC && strings.HasPrefix(CalleeName(&c.Call), "cmp.Or") && len(c.Call.Args) == 1 {
+				for _, e := range VariadicElems(c.Call.Args[0]) {
+					if e != nil && !have[[2]any{e, true}] {
+						have[[2]any{e, true}] = true
+						out = append(out, Fact{Cond: out[i].Cond, Val: out[i].Val, If: out[i].If, NilOf: e, IsNil: true})
+					}
+				}
+			}
+		}
 		phi, want, ok := phiTest(out[i])
 		if out[i].NilOf != nil {
 			// a derived nil fact about a value that is itself a phi unfolds further
@@ -535,11 +679,16 @@ func (g *Graph) unfold(out []Fact, busy map[int]bool) []Fact {
 			if !g.Reach[pred] || g.Cut[pred] >= 0 || !containsInt(g.Succs[pred], pb) {
 				continue
 			}
-			pf := g.factsAt(pred, busy)
+			pf0, t := g.factsAt(pred, nil)
+			tainted = tainted || t
+			pf := append([]Fact(nil), pf0...)
 			if ef, ok := g.edgeFact(pred, pb); ok {
 				pf = append(pf, ef)
 			}
 			if cls := classify(e, pf); cls != clsUnknown && cls != want {
+				continue
+			}
+			if g.contradicts(pf, have, pb) {
 				continue
 			}
 			nCompat++
@@ -590,7 +739,7 @@ func (g *Graph) unfold(out []Fact, busy map[int]bool) []Fact {
 			}
 		}
 	}
-	return out
+	return out, tainted
 }
 
 // Resolve follows v through phis whose incoming edge is fixed at instruction
@@ -644,6 +793,58 @@ func (g *Graph) Resolve(v ssa.Value, at ssa.Instruction) ssa.Value {
 		v = only
 	}
 	return v
+}
+
+// ResolveAll is Resolve for callers that can deal with several values: it returns the
+// values v can have at `at`, following phis and leaving out the edges that the facts
+// holding at `at` rule out. Phis it cannot narrow are expanded into all their live edges.
+func (g *Graph) ResolveAll(v ssa.Value, at ssa.Instruction) []ssa.Value {
+	var out []ssa.Value
+	seen := map[ssa.Value]bool{}
+	var walk func(v ssa.Value, depth int)
+	walk = func(v ssa.Value, depth int) {
+		if seen[v] {
+			return
+		}
+		seen[v] = true
+		phi, ok := v.(*ssa.Phi)
+		if !ok || depth > 8 {
+			out = append(out, v)
+			return
+		}
+		blk := phi.Block()
+		feasible := make([]bool, len(phi.Edges))
+		for k := range phi.Edges {
+			pred := blk.Preds[k].Index
+			feasible[k] = g.Reach[pred] && g.Cut[pred] < 0 && containsInt(g.Succs[pred], blk.Index)
+		}
+		// facts about phis of this block fix the edge only if `at` is reached from this
+		// block without passing through it again: the block must dominate `at`
+		if g.DomBlock(blk.Index, at.Block().Index) {
+			for _, f := range g.FactsAtInstr(at) {
+				q, want, ok := phiTest(f)
+				if !ok || q.Block() != blk {
+					continue
+				}
+				for k, e := range q.Edges {
+					if !feasible[k] {
+						continue
+					}
+					pred := blk.Preds[k].Index
+					if cls := classify(e, g.EdgeFacts(pred, blk.Index)); cls != clsUnknown && cls != want {
+						feasible[k] = false
+					}
+				}
+			}
+		}
+		for k, e := range phi.Edges {
+			if feasible[k] {
+				walk(e, depth+1)
+			}
+		}
+	}
+	walk(v, 0)
+	return out
 }
 
 func containsInt(s []int, x int) bool {
@@ -1493,4 +1694,114 @@ func (g *Graph) Instrs2Calls(filter func(*ssa.Call) bool) []*ssa.Call {
 		}
 	})
 	return out
+}
+
+// VariadicElems returns the values stored into the backing array of a variadic argument slice.
+func VariadicElems(v ssa.Value) []ssa.Value {
+	sl, ok := v.(*ssa.Slice)
+	if !ok {
+		return nil
+	}
+	al, ok := sl.X.(*ssa.Alloc)
+	if !ok {
+		return nil
+	}
+	elems := map[int64]ssa.Value{}
+	max := int64(-1)
+	for _, r := range Referrers(al) {
+		ia, ok := r.(*ssa.IndexAddr)
+		if !ok {
+			continue
+		}
+		idx, ok := ConstInt(ia.Index)
+		if !ok {
+			return nil
+		}
+		for _, rr := range Referrers(ia) {
+			if st, ok := rr.(*ssa.Store); ok && st.Addr == ia {
+				elems[idx] = st.Val
+				if idx > max {
+					max = idx
+				}
+			}
+		}
+	}
+	var out []ssa.Value
+	for i := int64(0); i <= max; i++ {
+		out = append(out, elems[i])
+	}
+	return out
+}
+
+
+// contradicts reports whether the facts pf of an edge into merge block c are at odds with the
+// facts in have, on a value that was computed before c was entered (so that both speak of the
+// same evaluation of it).
+func (g *Graph) contradicts(pf []Fact, have map[[2]any]bool, c int) bool {
+	for _, f := range pf {
+		if f.NilOf != nil {
+			continue
+		}
+		ins, isI := f.Cond.(ssa.Instruction)
+		if isI && (ins.Block() == nil || ins.Block().Index == c || !g.DomBlock(ins.Block().Index, c)) {
+			continue
+		}
+		if _, isPhi := f.Cond.(*ssa.Phi); isPhi {
+			continue
+		}
+		if have[[2]any{f.Cond, !f.Val}] {
+			return true
+		}
+		for _, tw := range g.twins(f.Cond) {
+			if have[[2]any{tw, !f.Val}] {
+				return true
+			}
+		}
+	}
+	return false
+}
+
+// twins returns the other instructions of the function that compute the same pure
+// comparison or boolean operation on the very same operands as v.
+func (g *Graph) twins(v ssa.Value) []ssa.Value {
+	b, ok := v.(*ssa.BinOp)
+	if !ok {
+		return nil
+	}
+	if g.twinIdx == nil {
+		g.twinIdx = map[[3]any][]ssa.Value{}
+		for _, blk := range g.Fn.Blocks {
+			for _, ins := range blk.Instrs {
+				if q, isB := ins.(*ssa.BinOp); isB {
+					switch q.Op {
+					case token.EQL, token.NEQ, token.LSS, token.LEQ, token.GTR, token.GEQ:
+						k := [3]any{q.Op, twinKey(q.X), twinKey(q.Y)}
+						g.twinIdx[k] = append(g.twinIdx[k], q)
+					}
+				}
+			}
+		}
+	}
+	all := g.twinIdx[[3]any{b.Op, twinKey(b.X), twinKey(b.Y)}]
+	if len(all) < 2 {
+		return nil
+	}
+	var out []ssa.Value
+	for _, q := range all {
+		if q != v {
+			out = append(out, q)
+		}
+	}
+	return out
+}
+
+// twinKey identifies an operand: constants by value and type, everything else by identity.
+func twinKey(v ssa.Value) any {
+	if c, ok := v.(*ssa.Const); ok {
+		if c.Value == nil {
+			return "nil:" + c.Type().String()
+		}
+		return c.Value.ExactString() + ":" + c.Type().String()
+	}
+	return v
 }
